@@ -452,18 +452,19 @@ def find_witness(pid, obligation):
     return None
 
 
-STANDIN_MODES = {"C02": ["ident", "stream"], "C03": ["total"], "C13": ["facade"], "C10": ["punct"], "C05": ["dec"], "C06": ["wf"], "C07": ["consist"], "C09": ["thr"], "C11": ["ncase"], "C15": ["iter"], "C18": ["orule"]}
+STANDIN_MODES = {"C02": ["ident", "stream"], "C03": ["total"], "C13": ["facade"], "C10": ["punct"], "C16": ["ozero"], "C05": ["dec"], "C06": ["wf"], "C07": ["consist"], "C09": ["thr"], "C11": ["ncase"], "C15": ["iter"], "C18": ["orule"]}
 STANDIN_BOUND = {
     "total": "about 70 texts (empty, whitespace-only, hyphen-only, combining characters, lone link / separator words, sequences of ordinals and cardinals with commas, repeated scale words, a 160-word number, the 29 stream phrases) x 7 languages x thresholds {0, 10, 100, +inf, -inf, NaN, -1} through text2digits, replace_numbers_in_text, find_numbers and find_numbers_iter: no panic, the lazy iterator ends; every ordered pair of words of each language's grammar table (plus function words) alone, after a zero word and around one (about 600 000 phrases) through text2digits and replace_numbers_in_text: no panic",
     "ident": "22 texts without number words x 7 languages x thresholds {0,10} must come back identical; 7 number phrases x 6 punctuation frames",
     "stream": "29 token streams x thresholds {0,10} through replace_numbers_in_stream with tokens that record their source words",
     "dec": "16 decimal phrases (7 languages): rewritten text and Occurence.value",
-    "wf": "29 token streams (7 languages, pause / not-a-number hints) x thresholds {0,10,1000}: spans ordered, text/value/is_ordinal consistent, for find_numbers and for the lazy find_numbers_iter",
+    "wf": "29 token streams (7 languages, pause / not-a-number hints) x thresholds {0,10,1000}: spans ordered, text/value/is_ordinal consistent, for find_numbers and for the lazy find_numbers_iter; a Spanish fraction has the value 1/n; a German cardinal and ordinal above 2^53 keep every digit in the text",
     "consist": "29 token streams x 3 thresholds: validator(span words) == occurrence text; at threshold 0 no lone number word is left out",
     "thr": "29 token streams x 3 thresholds: threshold only hides small lone numbers; 3 linked-number sentences; about 11 000 systematic sequences (en, fr) of 2-3 numbers out of 6 (small / large x cardinal / ordinal) with a comma, nothing, an ordinary word, a period or a token of digits between them, under the property's own characterisation: reported at threshold 10 iff not small or a same-kind neighbour; every single-word entry of each language's INSIGNIFICANT set (read from /repo's vocabulary files) between two small numbers: both reported, and an ordinary word in the same place: neither",
     "iter": "29 token streams x 3 thresholds: find_numbers_iter == find_numbers; hint-free streams also with tokens that keep the trait's default hint methods",
     "orule": "17 English sentences with 'o' next to words, punctuation and no-break spaces, and after a swallowed 'and' / 'point' while a number is pending; plus 270 systematic neighbourhoods: 10 left contexts x 9 right contexts (number word, ordinary word, comma, dash, other punctuation, text boundary) x 3 kinds of whitespace",
     "ncase": "11 words with non-ASCII letters, those letters capitalised; every single-word linking word of each language (from /repo's vocabulary files) upper-cased and capitalised between two small numbers, as a plain token and as a token flagged not-a-number, number words in lower and upper case: same occurrences as in lower case",
+    "ozero": "15 phrases (7 languages): a zero word - in English also 'o' - after a non-zero number starts a new numeral, before a number it stays in front, alone it is 0",
     "punct": "two pairs of numbers that could combine (hundred + twenty, sixty + five, ...) per language x 14 punctuation separators (comma, semicolon, colon, !, ?, spaced dash and en dash, slash, brackets, ellipsis, quote; with and without spaces): rewritten as a p b at threshold 0",
     "facade": "per language every word of its grammar table (plus articles, conjunction, separator word, an ordinary word, a comma) alone and every ordered pair of them (about 200 000 phrases), and the 29 stream phrases: "
               "text2digits, replace_numbers_in_text (thresholds 0 and 10) and find_numbers (threshold 10) through the concrete interpreter type and through Language must agree",
